@@ -11,6 +11,7 @@ and its sync-op skeleton only.  Liveness is `C04_no_stuck` + `C04_no_deadlock` (
 decreases); that the Go scheduler eventually runs an enabled goroutine is assumed.
 -/
 import Fatchoy.Lemmas.ConnMeasure
+import Fatchoy.Lemmas.ListenerLive
 namespace Fatchoy.Conn
 
 /-- the regenerated state constants satisfy the side-condition of the four-valued abstraction -/
@@ -31,7 +32,7 @@ theorem C04_no_panic (cfg : Cfg) {s : State} (h : Reachable cfg s) : ∀ p ∈ s
 theorem C04_single_closer (cfg : Cfg) {s : State} (h : Reachable cfg s) :
     s.dupWin = false ∧ (s.st = .running → s.win = none) ∧ (∀ w, s.win = some w → w.pc ≠ .dead) := by
   have h1 := inv1_reachable h
-  exact ⟨h1.noDup, win_none_of_running h1, fun w hw => (h1.some_ w hw).1⟩
+  exact ⟨h1.noDup, win_none_of_running h1, fun w hw => (h1.some_ w hw).1.1⟩
 
 /-- exactly one terminal error is offered per connection: never more than one; exactly one once the state is
   Terminated and whenever a winning caller of Close/ForceClose has returned; and it is the elected closer's. -/
@@ -128,21 +129,24 @@ theorem C04_idempotent (s : State) (j : Nat) (c : Closer) (hc : s.cls[j]? = some
   · unfold stepCls
     simp [hj, electStep]
 
-/-- when the state is Terminated both pumps have exited, the WaitGroup is at zero, `done` is closed, both
-  directions of the socket are shut (the peer sees the stream end) and exactly one error was offered. -/
+/-- when the state is Terminated both pumps have exited, the WaitGroup is at zero, `done` is closed, the write side of
+  the socket is shut (the peer sees the stream end), and the receive side is shut exactly when the elected closer
+  was a ForceClose: the graceful Close leaves it open (shutting it would let a frame of the peer that arrives
+  after our FIN reset the connection and destroy flushed, not yet transmitted data). -/
 theorem C04_terminated_clean (cfg : Cfg) {s : State} (h : Reachable cfg s) (ht : s.st = .terminated) :
-    s.w = .exited ∧ s.r = .exited ∧ s.wg = 0 ∧ s.done = true ∧ s.readShut = true ∧ s.writeShut = true := by
+    s.w = .exited ∧ s.r = .exited ∧ s.wg = 0 ∧ s.done = true ∧ s.writeShut = true ∧
+    ∃ w, s.win = some w ∧ s.readShut = !w.graceful := by
   have h1 := inv1_reachable h
   cases hw : s.win with
   | none => rcases (h1.none_ hw).1 with h' | h' <;> (rw [ht] at h'; simp at h')
   | some w =>
     obtain ⟨_, hst, hrs, hdn, _, hgone, hws, _, _⟩ := h1.some_ w hw
     rw [ht] at hst
-    have hg : (phaseOf w.pc).gone = true ∧ (phaseOf w.pc).done = true ∧ (phaseOf w.pc).readShut = true ∧
-        (phaseOf w.pc).writeShut = true := by
+    have hg : (phaseOf w.graceful w.pc).gone = true ∧ (phaseOf w.graceful w.pc).done = true ∧
+        (phaseOf w.graceful w.pc).readShut = !w.graceful ∧ (phaseOf w.graceful w.pc).writeShut = true := by
       cases hpc : w.pc <;> simp [hpc, phaseOf] at hst ⊢
     obtain ⟨hwx, hrx⟩ := hgone hg.1
-    refine ⟨hwx, hrx, ?_, by rw [hdn, hg.2.1], by rw [hrs, hg.2.2.1], by rw [hws, hg.2.2.2]⟩
+    refine ⟨hwx, hrx, ?_, by rw [hdn, hg.2.1], by rw [hws, hg.2.2.2], w, rfl, by rw [hrs, hg.2.2.1]⟩
     rw [h1.wg_, hwx, hrx]; rfl
 
 /-- no call can be blocked forever by the connection itself: in every reachable state in which a SendPacket,
@@ -209,13 +213,14 @@ def exPkt (n : Nat) : Pkt := ⟨n, 10 + n, true⟩
   inbound queue (capacity 1) is full and undrained, the reader is released by `done` (D4); a second Close and
   a late SendPacket follow.  With the repaired code this ends Terminated, without a panic, one error offered. -/
 def exRace : List Action :=
-  [.start, .peerSend (.frame (exPkt 100)), .rFrame, .rPush, .rCheck, .peerSend (.frame (exPkt 101)), .rFrame,
+  [.start, .peerSend (.frame (exPkt 100)), .rArm, .rChk, .rFrame, .rPush, .rCheck,
+   .peerSend (.frame (exPkt 101)), .rArm, .rChk, .rFrame,
    .sendCall 0 (exPkt 1), .snd 0, .snd 0,          -- sender is at `send` (H2 point send.checked)
    .closeCall true,                                   -- Close: must wait for the read lock
    .snd 0, .snd 0,                                    -- enqueue, RUnlock
    .cls 0, .cls 0,                                    -- Lock, CAS: wins
    .closeCall false, .win, .cls 1, .cls 1, .cls 1,   -- ForceClose loses and returns
-   .win, .win, .win,                                  -- CloseRead, close(done), notifyErr
+   .win, .win, .win,                                  -- close(done), SetReadDeadline(now), notifyErr
    .rDrop, .rWgDone,                                  -- the reader was stuck on the full inbound queue
    .wDone, .wFlush, .wWrite true, .wFlush, .wWgDone,
    .win, .win, .win, .win, .win, .cls 0,              -- finally; Close returns
@@ -228,7 +233,7 @@ example : ∃ s, run exCfg4 (init exCfg4) exRace = some s ∧ s.st = .terminated
   decide
 
 /-- the hypotheses of `C04_refused_after` are satisfiable: a call that begins after the election -/
-example : ∃ s, run exCfg4 (init exCfg4) (exRace.take 17 ++ [.sendCall 1 (exPkt 2)]) = some s ∧
+example : ∃ s, run exCfg4 (init exCfg4) (exRace.take 21 ++ [.sendCall 1 (exPkt 2)]) = some s ∧
     s.st = .shutdown ∧ s.snd[1]? = some (.rlock (exPkt 2)) := by
   refine ⟨_, rfl, ?_⟩
   decide
@@ -236,9 +241,128 @@ example : ∃ s, run exCfg4 (init exCfg4) (exRace.take 17 ++ [.sendCall 1 (exPkt
 /-- the state in which the unfixed code was stuck for ever (D4) is reachable: the elected closer waits in
   `wg.Wait`, the reader holds a frame for the full, undrained inbound queue — here `C04_no_stuck` provides a
   step (the reader's `select` takes `<-done`) and `C04_no_deadlock` bounds what is left to do by `mu` -/
-example : ∃ s, run exCfg4 (init exCfg4) (exRace.take 23) = some s ∧ s.win = some ⟨true, .closed, .wait⟩ ∧
-    s.r = .deliver (exPkt 101) ∧ s.inb.length = exCfg4.icap ∧ s.wg = 2 ∧ (stepRDrop s).isSome = true ∧ mu s = 34 := by
+example : ∃ s, run exCfg4 (init exCfg4) (exRace.take 27) = some s ∧ s.win = some ⟨true, .closed, .wait⟩ ∧
+    s.r = .deliver (exPkt 101) ∧ s.inb.length = exCfg4.icap ∧ s.wg = 2 ∧ (stepRDrop s).isSome = true ∧ mu s = 36 ∧ s.readShut = false ∧ s.rdl = true := by
   refine ⟨_, rfl, ?_⟩
   decide
 
 end Fatchoy.Conn
+
+/-! ## the listener (`TcpServer.serve / accept / Close`) — Model/Listener.lean
+
+`Reachable cfg s` quantifies over ALL action sequences of the listener LTS: any number of `Listen` calls (before
+`Close`), clients connecting at any time, `Accept` failing for reasons of the environment, the consumer draining the
+hand-off queue or not, every interleaving of the serve loops with the caller of `Close`.  -/
+namespace Fatchoy.Listener
+
+/-- the regenerated capacity of the hand-off queue satisfies the side-condition (the queue is buffered) -/
+theorem Listener_valid : ValidCfg cfgGen := by decide
+
+/-- no panic site is reachable: no send on the closed hand-off queue (it is closed only after every accept loop has
+  exited), no close of a closed or nil channel, no negative WaitGroup; the shared error channel is never closed
+  (the model has no such action: see the skeleton of tcp_server.go).  The only panic is the misuse the model makes
+  explicit: calling `Close` a second time. -/
+theorem Listener_no_panic (cfg : Cfg) {s : State} (h : Reachable cfg s) : ∀ p ∈ s.panics, p = Panic.closeTwice :=
+  (inv_reachable h).panics
+
+/-- every connection `Accept` returned is handed off, or was closed by the listener because it could not be handed
+  off, or is the one a serve loop holds right now; the hand-off queue is FIFO and never over capacity. -/
+theorem Listener_handoff (cfg : Cfg) {s : State} (h : Reachable cfg s) :
+    s.accepted.length = s.handed.length + s.closed.length + (s.loops.map (fun l => (held l.pc).length)).sum ∧
+    s.handed = s.taken ++ s.backlog ∧ s.backlog.length ≤ cfg.bcap := by
+  have hi := inv_reachable h
+  exact ⟨hi.count, hi.fifo, hi.room⟩
+
+/-- `Close` is never stuck: once it was called and until it has returned, a step of a serve loop or of its caller is
+  enabled — whether or not anybody drains the hand-off queue (a loop blocked on the full queue takes `<-done`),
+  whatever the clients do. -/
+theorem Listener_no_stuck (cfg : Cfg) {s : State} (h : Reachable cfg s) (hc : s.cl ≠ .idle ∧ s.cl ≠ .returned) :
+    ∃ a, a.internal = true ∧ (step cfg s a).isSome = true :=
+  no_stuck cfg h hc
+
+/-- `Close` returns under every interleaving: `mu` strictly decreases with every internal step (only the
+  environment — new clients — can raise it), so after `Close` was called every sequence of internal steps is at
+  most `mu s` long, and when no internal step is enabled any more `Close` has returned. -/
+theorem Listener_close_returns (cfg : Cfg) {s : State} (h : Reachable cfg s) (hc : s.cl ≠ .idle)
+    (acts : List Action) (s' : State) (hi : ∀ a ∈ acts, a.internal = true) (hr : run cfg s acts = some s') :
+    acts.length + mu s' ≤ mu s ∧ ((∀ a, a.internal = true → step cfg s' a = none) → s'.cl = .returned) := by
+  refine ⟨internal_run_bound acts hi hr, ?_⟩
+  intro hnone
+  have hr' := run_reachable acts h hr
+  have hni : s'.cl ≠ .idle := by
+    clear hnone hr'
+    induction acts generalizing s with
+    | nil => simp [run] at hr; subst hr; exact hc
+    | cons a as ih =>
+      simp only [run] at hr
+      cases hs : step cfg s a with
+      | none => simp [hs] at hr
+      | some s1 =>
+        simp only [hs] at hr
+        exact ih (Reachable.step a h hs) (step_cl_not_idle hs hc) (fun b hb => hi b (List.mem_cons_of_mem _ hb)) hr
+  cases hcl : s'.cl with
+  | returned => rfl
+  | _ =>
+    obtain ⟨a, ha, he⟩ := no_stuck cfg hr' ⟨hni, by rw [hcl]; simp⟩
+    rw [hnone a ha] at he; simp at he
+
+/-- after `Close` has returned: every accept loop has exited, every listening socket is closed, the WaitGroup is at
+  zero, `done` is closed, and every connection `Accept` ever returned was either handed off or closed by the
+  listener — none is left behind. -/
+theorem Listener_after_close (cfg : Cfg) {s : State} (h : Reachable cfg s) (hc : s.cl = .returned) :
+    (∀ l ∈ s.loops, l.pc = .exited ∧ l.isOpen = false) ∧ s.wg = 0 ∧ s.done = true ∧ s.bchan = .nil ∧
+    s.accepted.length = s.handed.length + s.closed.length := by
+  have hi := inv_reachable h
+  have hex : ∀ l ∈ s.loops, l.pc = .exited := hi.gone (by rw [hc]; rfl)
+  refine ⟨?_, ?_, by rw [hi.done_, hc]; rfl, by rw [hi.chan_, hc]; rfl, ?_⟩
+  · intro l hl
+    obtain ⟨i, hil⟩ := List.getElem?_of_mem hl
+    exact ⟨hex l hl, hi.shut i l hil (by rw [hc]; trivial)⟩
+  · rw [hi.wg_]
+    have : ∀ (l : List Loop), (∀ x ∈ l, x.pc = .exited) → (l.map act).sum = 0 := by
+      intro l
+      induction l with
+      | nil => intro _; rfl
+      | cons a l ih =>
+        intro hl
+        simp [act, active, hl a List.mem_cons_self, ih (fun x hx => hl x (List.mem_cons_of_mem _ hx))]
+    exact this s.loops hex
+  · have := hi.count
+    rw [held_sum_zero s.loops hex] at this
+    simpa using this
+
+/-- …and it stays that way: after `Close` has returned no step accepts, hands off or closes anything, and a client
+  that connects is refused. -/
+theorem Listener_frozen (cfg : Cfg) {s s' : State} (h : Reachable cfg s) (hc : s.cl = .returned) (a : Action)
+    (hs : step cfg s a = some s') :
+    s'.accepted = s.accepted ∧ s'.handed = s.handed ∧ s'.closed = s.closed ∧ s'.cl = .returned ∧
+    (∀ i c, a = .dial i c → s'.refused = s.refused ++ [c]) :=
+  frozen_step (inv_reachable h) hc hs
+
+/-! ### non-vacuity: two listeners, a full hand-off queue nobody drains, a client arriving while `Close` runs -/
+
+def exL : Cfg := ⟨1⟩
+
+/-- listener 0 hands connection 1 off (the queue, capacity 1, is now full) and blocks on connection 2; listener 1
+  has accepted connection 3 when `Close` closes `done`: it closes it; connection 4 waits in listener 1's accept queue
+  when that listener is closed (reset by the kernel); the loop blocked on the full queue takes `<-done` and closes
+  connection 2; `Close` returns; a late client is refused. -/
+def exClose : List Action :=
+  [.listen, .listen, .dial 0 1, .dial 0 2, .accept 0, .loop 0 false, .loop 0 false, .accept 0, .loop 0 false,
+   .dial 1 3, .accept 1, .closeCall, .close, .dial 1 4, .close, .close, .close,
+   .loop 1 false, .loop 1 false, .loop 0 true, .acceptClosed 0, .loop 0 false, .loop 0 false, .close,
+   .close, .close, .dial 0 5]
+
+example : ∃ s, run exL init exClose = some s ∧ s.cl = .returned ∧ s.accepted = [1, 2, 3] ∧ s.handed = [1] ∧
+    s.closed = [3, 2] ∧ s.kreset = [4] ∧ s.refused = [5] ∧ s.backlog = [1] ∧ s.panics = [] := by
+  refine ⟨_, rfl, ?_⟩
+  decide
+
+/-- the state in which the unrepaired `accept` was stuck for ever is reachable: `Close` waits in `wg.Wait`, a serve
+  loop holds a connection for the full, undrained hand-off queue — `Listener_no_stuck` provides the step -/
+example : ∃ s, run exL init (exClose.take 17) = some s ∧ s.cl = .wait ∧ s.backlog.length = exL.bcap ∧
+    s.loops[0]? = some ⟨false, [], .offer 2⟩ ∧ s.wg = 2 ∧ (stepLoop exL s 0 true).isSome = true := by
+  refine ⟨_, rfl, ?_⟩
+  decide
+
+end Fatchoy.Listener
